@@ -224,6 +224,66 @@ def run(chk):
                                  {"input": [show_line(l) for l in lines], "repaired": [show_line(l) for l in rl], "P": P})
     chk.stats["sweep_shapes"] = nshape
     chk.coverage["exhaustive_local_sweep"] = True
+    # ---- whole functions: the branches of really generated code, measured with independent instruction lengths.
+    #      check_branches trusts the nb_bytes the generator wrote on every instruction; here the emitted text is
+    #      re-encoded (CV.Encode through the model's `lens`) and every displacement is recomputed. Bodies are built
+    #      from one kind of statement each and stretched byte by byte across the 127-byte limit ----
+    import prog, gen_c, matrix
+    SIZED = [("unsigned char *ptrs[4]; unsigned char *p;", "p = ptrs[Y];"), ("unsigned char *ptrs[4]; unsigned char *p;", "ptrs[Y] = p;"),
+             ("unsigned char *ptrs[4]; unsigned char *p;", "p = ptrs[X];"), ("unsigned short sa[4]; unsigned short s;", "s = sa[Y];"),
+             ("unsigned short sa[4]; unsigned short s;", "sa[Y] = s;"), ("unsigned short sa[4]; unsigned short s;", "s += sa[X];"),
+             ("unsigned char a[8]; unsigned char v;", "v = a[Y];"), ("unsigned char a[8]; unsigned char v;", "a[X] = v;"),
+             ("unsigned char a[8]; unsigned char v;", "a[Y]++;"), ("unsigned char v;", "v = v + 3;"), ("unsigned short s;", "s += 300;"),
+             ("ramchip unsigned char r[8]; unsigned char v;", "r[Y] = v;"), ("ramchip unsigned char *rp[4]; unsigned char *p;", "p = rp[Y];"),
+             ("unsigned char *q; unsigned char v;", "v = q[Y];"), ("unsigned char *const K = 0x100; unsigned char v;", "v = *K;"),
+             ("unsigned char *const K = 0x80; unsigned char v;", "K[1] = v;"), ("const unsigned char t[4] = {1, 2, 3, 4}; unsigned char v;", "v = t[X];")]
+    FORMS = [("if (v9) { %s }", "if"), ("do { %s } while (v9);", "do"), ("while (v9 != 3) { %s }", "while")]
+    srcs = []
+    def measure(decl, form, body):
+        src = decl + " unsigned char v9;\nvoid main() { " + (form % body) + " }\n"
+        r = h.compile(src, 0)
+        return src, r
+    for decl, st in SIZED:
+        for form, fname in FORMS[: (3 if not chk.quick() else 1)] if st != "p = ptrs[Y];" else FORMS:
+            # grow the body until it is close to the limit, then one byte (INX) at a time across it
+            reps = 1
+            while reps < 80:
+                src, r = measure(decl, form, st * reps)
+                if r["status"] != "ok" or r["funcs"][-1]["size"] >= 108:
+                    break
+                reps += 1
+            if r["status"] != "ok":
+                chk.count("far_" + r["status"]); continue
+            for fill in range(0, 30):
+                srcs.append(measure(decl, form, st * reps + "X++; " * fill)[0])
+    srcs += [p.text for p in matrix.all_programs(["far"])]
+    srcs += prog.repo_test_inputs()
+    for i in range(chk.scale(60, 1500)):
+        srcs.append(gen_c.program(rng, placement=rng.choice(["zp", "mixed", "abs"]), shorts=rng.random() < 0.4).text)
+    for src in srcs:
+        for level in (0, 1):
+            r = h.compile(src, level)
+            if r["status"] != "ok":
+                chk.count("program_" + r["status"]); break
+            env, _, ports, _ = prog.layout(r["vars"], r.get("scheme", "4K"))
+            m.req("drop c03p")
+            m.req("env c03p %s" % " ".join("%s=%d" % (hx(k), v) for k, v in env.items()))
+            for f in r["funcs"]:
+                if f["code"] is None or not f["code"]["lines"]:
+                    continue
+                ls = f["code"]["lines"]
+                la = m.req("lens c03p " + toks_of_lines(ls))
+                lens = la.split(" ")[1:]
+                if "bad" in lens or len(lens) != len(ls):
+                    chk.count("program_function_not_encodable"); continue
+                ds = displacements(ls, [int(x) for x in lens])
+                chk.count("program_branches", len(ds))
+                chk.case(key=(src, level, f["name"]), nontrivial=any(abs(d[2]) > 100 for d in ds))
+                for (i, mn, d) in ds:
+                    if d < -128 or d > 127:
+                        chk.fail("branch-out-of-range-in-function", "function %s (-O%d): %s at line %d is %d bytes from its label when the emitted text is encoded" %
+                                 (unhx(f["name"]), level, mn, i, d), {"source": src, "level": level, "function": unhx(f["name"]), "line": show_line(ls[i]), "displacement": d})
+                        break
     h.close()
     m.close()
     return chk.finish(level="proof", obligations=obligations, trusted_base=TRUSTED,
